@@ -149,5 +149,20 @@ Definition probe_ok (r : oprow) : bool := all_dtype F16 (op_result gen_cfg F16 F
 Lemma probe_ok_all : forallb probe_ok (wrapper_rows ++ param_free_layer_rows) = true.
 Proof. vm_compute. reflexivity. Qed.
 
+(* Python-scalar operands of the operator overloads, all three floating dtypes *)
+Definition fl3 : list dtype := [F16; F32; F64].
+Definition py_scalars : list absval := [PyInt; PyFloat; PyBool None; PyBool (Some true); PyBool (Some false)].
+
+Definition scalar_row_ok (r : oprow) : bool := forallb (fun d => all_dtype d (op_result gen_cfg d d r)) fl3.
+
+Lemma scalar_row_ok_all : forallb scalar_row_ok scalar_operand_rows = true.
+Proof. vm_compute. reflexivity. Qed.
+
+Definition wrap_ok (d : dtype) (w : absval) : bool :=
+  list_eqb_abs (deval0 gen_cfg [Np d KArray; w] scalar_wrap) [Np d KArray].
+
+Lemma wrap_ok_all : forallb (fun d => forallb (wrap_ok d) py_scalars) fl3 = true.
+Proof. vm_compute. reflexivity. Qed.
+
 Lemma forallb_In {A} (f : A -> bool) (l : list A) : forallb f l = true -> forall x, In x l -> f x = true.
 Proof. intro H. apply forallb_forall. exact H. Qed.
